@@ -30,6 +30,8 @@ impl Frame {
 pub struct VM {
     stack: Vec<Object>,
     globals: Vec<Object>,
+    /// Which slots of `globals` were stored to; the others only exist as padding below a later variable
+    globals_assigned: Vec<bool>,
     frames: Vec<Frame>,
     instructions: Vec<u8>,
     ip: usize,
@@ -45,6 +47,7 @@ impl VM {
         Self {
             stack: Vec::with_capacity(32),
             globals: Vec::with_capacity(8),
+            globals_assigned: Vec::with_capacity(8),
             frames,
             instructions: Vec::new(),
             ip: 0,
@@ -269,14 +272,20 @@ impl VM {
                     while self.globals.len() <= idx {
                         self.globals.push(Object::null());
                     }
+                    while self.globals_assigned.len() <= idx {
+                        self.globals_assigned.push(false);
+                    }
                     self.globals[idx] = value;
+                    self.globals_assigned[idx] = true;
                 }
                 OpCode::GetGlobal => {
                     let idx = self.read_u16();
-                    // a global can be referenced before anything was stored in it (stel x = x)
+                    // a global can be referenced before anything was stored in it (stel x = x),
+                    // also when its slot already exists because a later variable was stored
+                    let assigned = self.globals_assigned.get(idx as usize) == Some(&true);
                     let value = match self.globals.get(idx as usize) {
-                        Some(value) => *value,
-                        None => {
+                        Some(value) if assigned => *value,
+                        _ => {
                             return Err(Error::ReferenceError(
                                 "variabele wordt gebruikt voordat deze een waarde heeft".to_string(),
                             ))
